@@ -587,13 +587,22 @@ def check_loop_frame(ex, s_end, heap_at_head, spec, cx, label, s_head):
             if not spec.get('allocates', False):
                 raise VCError(f'{label}: body allocates objects; add allocates=True to the loop contract')
             continue
+        r = z3.Int('r!fr')
         if key not in declared:
-            raise VCError(f'{label}: body writes heap component {key} not covered by the loop modifies list')
+            # not in the modifies list: the body may only have written this component on objects it allocated itself;
+            # every object that existed at the loop head must be unchanged
+            al_head = s_head.heap.get('alloc', ex.heap0.get('alloc'))
+            if al_head is None:
+                raise VCError(f'{label}: body writes heap component {key} not covered by the loop modifies list')
+            ok = z3.ForAll([r], z3.Implies(z3.Select(al_head, r), z3.Select(arr, r) == z3.Select(before, r)))
+            ex.oblige(s_end, f'{label}.frame[{key}]', ok, kind='loop-frame')
+            continue
         refs = declared[key]
         if refs is None:
             continue
-        r = z3.Int('r!fr')
-        ok = z3.ForAll([r], z3.Implies(z3.And([r != x for x in refs]), z3.Select(arr, r) == z3.Select(before, r)))
+        al_head = s_head.heap.get('alloc', ex.heap0.get('alloc'))
+        guard = [r != x for x in refs] + ([z3.Select(al_head, r)] if al_head is not None else [])
+        ok = z3.ForAll([r], z3.Implies(z3.And(guard), z3.Select(arr, r) == z3.Select(before, r)))
         ex.oblige(s_end, f'{label}.frame[{key}]', ok, kind='loop-frame')
 
 
